@@ -49,6 +49,9 @@ def parseOp (w : String) : Option Op :=
   | ["find", h, uk] => do some (.find (← h.toNat?) (← uk.toNat?))
   | ["touch", h] => do some (.touch (← h.toNat?))
   | ["trav"] => some .trav
+  | ["rsv", n] => do some (.reserve (← n.toNat?))
+  | ["reh", n] => do some (.rehash (← n.toNat?))
+  | ["mlf", b] => do some (.setMlf (F32.ofBits (← b.toNat?)))
   | _ => none
 
 def uks (s : St) (ns : List Nat) : List Nat :=
@@ -61,6 +64,7 @@ def showRes (s : St) : Res → String
   | .touched _ => "touch"
   | .misuse => "misuse"
   | .broken w => s!"broken {w}"
+  | .sized w => s!"sized {w}"
 
 /-- step thread `t` until it has performed an access (at most `fuel` silent steps first) -/
 def stepEv (cfg : Cfg) (s : St) (t : Nat) : Nat → St × Option Ev × Option Res
@@ -89,11 +93,11 @@ def runAll (cfg : Cfg) (s : St) (t : Nat) : Nat → St
 
 def dstep (d : D) (ws : List String) : D × String :=
   match ws with
-  | ["cfg", multi, bc, num, den] =>
-    match bc.toNat?, num.toNat?, den.toNat? with
-    | some bc, some num, some den =>
-      ({ cfg := { multi := multi == "1", mlfNum := num, mlfDen := den }, st := { bc := bc } }, "ok")
-    | _, _, _ => (d, "bad-op")
+  | ["cfg", multi, bc, mlfbits] =>
+    match bc.toNat?, mlfbits.toNat? with
+    | some bc, some mb =>
+      ({ cfg := { multi := multi == "1", mlf0 := F32.ofBits mb }, st := { bc := bc, mlf := F32.ofBits mb } }, "ok")
+    | _, _ => (d, "bad-op")
   | "prog" :: ops =>
     match ops.mapM parseOp with
     | some ops => ({ d with st := { d.st with ths := d.st.ths ++ [{ ops := ops }] } }, "ok")
@@ -124,7 +128,7 @@ def dstep (d : D) (ws : List String) : D × String :=
     | none => (d, "bad-op")
   | ["state"] =>
     let s := d.st
-    (d, s!"chain {Proto.showNats (uks s s.L.chain)} | bc {s.bc} | size {s.size} | nodes {s.L.chain.length}")
+    (d, s!"chain {Proto.showNats (uks s s.L.chain)} | bc {s.bc} | size {s.size} | nodes {s.L.chain.length} | mlf {F32.toBits s.mlf}")
   | ["nodes"] =>
     let s := d.st
     (d, " ".intercalate ((List.range s.L.fresh).map (fun n =>
@@ -133,6 +137,78 @@ def dstep (d : D) (ws : List String) : D × String :=
 
 def driver : Proto.Driver := { σ := D, init := {}, step := dstep }
 end SO
+
+
+/-! ### table sizing (E-PURE): `seq n0 mlf0bits op...` with ops `i<k>` (k inserts of new keys), `r<n>` reserve, `h<n>` rehash,
+`m<bits>` max_load_factor; answer: the bucket count after the constructor and after every op (`!` marks a rejected load
+factor, `hang` a reserve that does not return) -/
+namespace SZ
+open Sizing
+
+def parseOp (w : String) : Option Op :=
+  let body := (w.drop 1).toString
+  match w.take 1 |>.toString, body.toNat? with
+  | "i", some k => some (.ins k)
+  | "r", some n => if n < 2 ^ 64 then some (.reserve n) else none
+  | "h", some n => if n < 2 ^ 64 then some (.rehash n) else none
+  | "m", some b => if b < 2 ^ 32 then some (.setMlf (F32.ofBits b)) else none
+  | _, _ => none
+
+def runOps (s : St) : List Op → List String → List String
+  | [], acc => acc.reverse
+  | op :: ops, acc =>
+    match step s op with
+    | none => ("hang" :: acc).reverse
+    | some s' =>
+      let mark := match op with
+        | .setMlf f => if Generated.C12.mlfReject f then "!" else ""
+        | _ => ""
+      runOps s' ops (s!"{s'.bc}{mark}" :: acc)
+
+def pureStep (ws : List String) : String :=
+  match ws with
+  | "seq" :: n0 :: mb :: ops =>
+    match n0.toNat?, mb.toNat?, ops.mapM parseOp with
+    | some n0, some mb, some ops =>
+      if n0 ≥ 2 ^ 64 ∨ mb ≥ 2 ^ 32 then "bad-op" else
+      let s0 := init n0 (F32.ofBits mb)
+      " ".intercalate (runOps s0 ops [toString s0.bc])
+    | _, _, _ => "bad-op"
+  | _ => "bad-op"
+end SZ
+
+/-! ### binary32 arithmetic (E-PURE): operands and results as bit patterns of non-negative floats -/
+def showF (x : F32) : String := match x with
+  | .nan => "nan"
+  | .neg => "neg"
+  | x => toString (F32.toBits x)
+
+def f32Step (ws : List String) : String :=
+  match ws with
+  | [f, a, b] =>
+    match a.toNat?, b.toNat? with
+    | some a, some b =>
+      if b ≥ 2 ^ 31 ∨ (a ≥ 2 ^ 31 ∧ f ≠ "muln") ∨ a ≥ 2 ^ 64 then "bad-op" else
+      let x := F32.ofBits a
+      let y := F32.ofBits b
+      match f with
+      | "mul" => showF (F32.mul x y)
+      | "div" => showF (F32.div x y)
+      | "lt" => Proto.showBool (F32.lt x y)
+      | "le" => Proto.showBool (F32.le x y)
+      | "eq" => Proto.showBool (F32.eq x y)
+      | "muln" => showF (F32.mul (F32.ofNat a) y)          -- size_t * float
+      | _ => "bad-op"
+    | _, _ => "bad-op"
+  | ["of", n] =>
+    match n.toNat? with
+    | some n => if n ≥ 2 ^ 64 then "bad-op" else showF (F32.ofNat n)
+    | none => "bad-op"
+  | ["ton", a] =>
+    match a.toNat? with
+    | some a => if a ≥ 2 ^ 31 then "bad-op" else toString (F32.toNat (F32.ofBits a))
+    | none => "bad-op"
+  | _ => "bad-op"
 
 /-! ### skip list replay -/
 namespace SK
@@ -233,6 +309,8 @@ end C12Drv
 def drivers : List (String × Proto.Driver) := [
   ("c12pure", Proto.pureDriver C12Drv.pureStep),
   ("c12so", C12Drv.SO.driver),
+  ("c12sz", Proto.pureDriver C12Drv.SZ.pureStep),
+  ("c12f32", Proto.pureDriver C12Drv.f32Step),
   ("c12sk", C12Drv.SK.driver)
 ]
 
